@@ -9,9 +9,12 @@
   driver evaluates on the real handler's traces; `runCall` is the function the driver replays.
 
   All theorems hold for every history (any length), any number of services, any SIDs, any reaction
-  scripts; the only hypothesis is `callWF`: caller-supplied timeouts are not negative.
+  scripts.  `callWF` (caller-supplied timeouts are not negative) is needed only for request validity and
+  the returned/requested timeout (`requests_valid`, `c09_history`); the registry, fallback, target and
+  unsubscribe clauses hold without it (`call_facts_unconditional`, `registry_mirrors`, …).
 -/
 import Upnp.Lemmas.C09Hist
+import Upnp.Lemmas.C09Decl
 namespace Upnp.C09
 open Upnp PyDict
 
@@ -21,7 +24,7 @@ open Upnp PyDict
 theorem requests_valid (cfg : Cfg) (rt : Routing) (c : Call) (rs : List Reaction)
     (hn : (keys rt).Nodup) (hw : callWF c) :
     ∀ e ∈ (runCall cfg rt c rs).exch, validReq e.req = true := by
-  have h := (runCall_ok cfg rt c rs hn hw).valid
+  have h := (runCall_ok cfg rt c rs hn).valid hw
   rw [List.all_eq_true] at h
   exact h
 
@@ -54,8 +57,8 @@ theorem wire_timeout_is_requested (cfg : Cfg) (svc : Nat) (sid : Str) (t : Int) 
 /-- **Not routed while the UNSUBSCRIBE is in flight** (audit C09-1): every UNSUBSCRIBE of every call arrives at
     the publisher with its SID already unrouted. -/
 theorem unsubscribe_unrouted_on_arrival (cfg : Cfg) (susp : Bool) (rt : Routing) (c : Call) (rs : List Reaction)
-    (hn : (keys rt).Nodup) (hw : callWF c) : unsubIssuedOk (runCallS cfg susp rt c rs).exch = true :=
-  (judgeFacts_runCallS cfg susp rt c rs hn hw).unsubIssued
+    (hn : (keys rt).Nodup) : unsubIssuedOk (runCallS cfg susp rt c rs).exch = true :=
+  (judgeFacts_runCallS cfg susp rt c rs hn).unsubIssued
 
 /-- the driver's diagnostic walk is the judge: a trace is accepted iff no step is reported -/
 theorem ok_iff_no_first_bad (exp : PyDict Str Nat) (l : List Step) (i : Nat) :
@@ -74,16 +77,60 @@ theorem ok_iff_no_first_bad (exp : PyDict Str Nat) (l : List Step) (i : Nat) :
 /-- in the non-suspending model the fallback SUBSCRIBE immediately follows its refused renewal, and an
     unreachable renewal is never followed by a fresh SUBSCRIBE for its service -/
 theorem fallback_adjacent_sequential (cfg : Cfg) (rt : Routing) (c : Call) (rs : List Reaction)
-    (hn : (keys rt).Nodup) (hw : callWF c) : fallbackAdjacent (runCall cfg rt c rs).exch = true :=
-  (runCall_ok cfg rt c rs hn hw).adjacent
+    (hn : (keys rt).Nodup) : fallbackAdjacent (runCall cfg rt c rs).exch = true :=
+  (runCall_ok cfg rt c rs hn).adjacent
 
 /-- **The registry mirrors the publisher**: after one more call — whatever the publisher answered, an
     unparsable granted TIMEOUT included — the routing table is the publisher-side fold of that call's
     exchanges (granted ∖ unsubscribed ∖ lost). -/
 theorem registry_mirrors (cfg : Cfg) (susp : Bool) (rt : Routing) (c : Call) (rs : List Reaction)
-    (hn : (keys rt).Nodup) (hw : callWF c) :
+    (hn : (keys rt).Nodup) :
     (runCallS cfg susp rt c rs).rt = (runCallS cfg susp rt c rs).exch.foldl foldExch rt :=
-  (judgeFacts_runCallS cfg susp rt c rs hn hw).mirror.symm
+  (judgeFacts_runCallS cfg susp rt c rs hn).mirror.symm
+
+/-- **The judge's registry clause read in first-order terms** (`Grants`, `Revokes`, `Continues` are written out in
+    `Lemmas/C09Decl.lean` without any model definition): after any exchanges, starting from an empty table, the
+    publisher-side fold expects SID `s` at service `j` iff some exchange granted `(s, j)` — a 200 to an initial
+    SUBSCRIBE carrying SID `s`, or a 200 to a renewal that continues under `s` — and no later exchange granted `s`
+    again or revoked it (UNSUBSCRIBE issued for `s`; renewal of `s` refused, unreachable or accepted under another SID). -/
+theorem registry_clause_first_order (l : List Exch) (s : Str) (j : Nat) :
+    get? (l.foldl foldExch []) s = some j ↔
+      ∃ a e b, l = a ++ e :: b ∧ Grants e s j ∧ Untouched b s :=
+  foldl_foldExch_get l s j
+
+/-- … one exchange at a time, from any table with distinct SIDs. -/
+theorem registry_clause_one_exchange (rt : PyDict Str Nat) (hn : (keys rt).Nodup) (e : Exch) (s : Str) (j : Nat) :
+    get? (foldExch rt e) s = some j ↔
+      Grants e s j ∨ ((∀ j', ¬ Grants e s j') ∧ ¬ Revokes e s ∧ get? rt s = some j) :=
+  foldExch_get rt hn e s j
+
+/-- `Continues` (written out) is the model's `renewedSid`: the two readings of "answered with a new SID" agree. -/
+theorem continues_is_renewedSid (s0 : Str) (sid' : Option Str) (s : Str) :
+    Continues s0 sid' s ↔ s = renewedSid s0 sid' :=
+  continues_iff s0 sid' s
+
+/-- **The handler's table in first-order terms**: after any call (any timeout, either requester mode) SID `s` is routed
+    to service `j` iff one of the call's exchanges granted `(s, j)` and none after it touched `s`, or none of them
+    touched `s` and it was routed to `j` before. -/
+theorem registry_first_order (cfg : Cfg) (susp : Bool) (rt : Routing) (c : Call) (rs : List Reaction)
+    (hn : (keys rt).Nodup) (s : Str) (j : Nat) :
+    let o := runCallS cfg susp rt c rs
+    get? o.rt s = some j ↔
+      (∃ a e b, o.exch = a ++ e :: b ∧ Grants e s j ∧ Untouched b s) ∨ (Untouched o.exch s ∧ get? rt s = some j) := by
+  intro o
+  rw [← (judgeFacts_runCallS cfg susp rt c rs hn).mirror]
+  exact foldl_foldExch_get_from o.exch s j rt hn
+
+/-- **Everything but request validity and the returned timeout holds for every call, whatever timeout the caller
+    passes** (negative ones included): the registry stays the publisher-side fold with distinct SIDs, the fallback
+    count, the targets of the requests and "unrouted when the UNSUBSCRIBE arrives". -/
+theorem call_facts_unconditional (cfg : Cfg) (susp : Bool) (rt : Routing) (c : Call) (rs : List Reaction)
+    (hn : (keys rt).Nodup) :
+    let o := runCallS cfg susp rt c rs
+    (keys o.rt).Nodup ∧ o.exch.foldl foldExch rt = o.rt ∧ fallbackOk c o.exch = true
+    ∧ unsubIssuedOk o.exch = true ∧ ∀ r s, targetOk ⟨c, o.exch, o.res, r, s⟩ = true :=
+  let h := judgeFacts_runCallS cfg susp rt c rs hn
+  ⟨h.nodup, h.mirror, h.fallback, h.unsubIssued, h.target⟩
 
 /-- the conversion of the granted TIMEOUT is guarded in both `async_subscribe` and `_async_do_resubscribe`
     (read from the source): an unparsable value cannot make a granted subscription half-registered -/
@@ -201,6 +248,24 @@ def exHist : List (Call × List Reaction) :=
     (.unsubscribeAll, [.connErr]) ]
 
 example : ∀ p ∈ exHist, callWF p.1 := by decide
+/-- `Grants` / `Revokes` are inhabited: an initial 200 grants its SID, a renewal answered with another SID grants the
+    new one and revokes the old one, an unanswered UNSUBSCRIBE revokes -/
+example : Grants ⟨subscribeRequest exCfg 0 1800, .resp 200 (some sA) none⟩ sA 0 :=
+  ⟨by decide, rfl, _, _, rfl, Or.inl ⟨by decide, rfl⟩⟩
+example : Grants ⟨renewRequest exCfg 0 sA 1800, .resp 200 (some sC) none⟩ sC 0 :=
+  ⟨by decide, rfl, _, _, rfl, Or.inr ⟨sA, by decide, Or.inl ⟨rfl, by decide, by decide⟩⟩⟩
+example : Revokes ⟨renewRequest exCfg 0 sA 1800, .resp 200 (some sC) none⟩ sA :=
+  ⟨by decide, Or.inr ⟨by decide, by
+    rintro ⟨sid', th, h, hc⟩
+    cases h
+    rcases hc with ⟨h, _, _⟩ | ⟨_, h | h | h⟩ <;> revert h <;> decide⟩⟩
+example : Revokes ⟨unsubRequest exCfg 0 sA, .connErr⟩ sA := ⟨by decide, Or.inl (by decide)⟩
+/-- `call_facts_unconditional` is not vacuous outside `callWF`: a negative timeout is not well-formed, the model
+    still registers the granted SID for the service, and the publisher-side fold gives that same table -/
+example : ¬ callWF (.subscribe 0 (-5)) := by decide
+example : (runCallS exCfg false [] (.subscribe 0 (-5)) [.resp 200 (some sA) none]).rt = [(sA, 0)]
+    ∧ (runCallS exCfg false [] (.subscribe 0 (-5)) [.resp 200 (some sA) none]).exch.foldl foldExch [] = [(sA, 0)] := by
+  decide
 /-- the example history is inside the domain at every step and the judge accepts it (evaluated) -/
 example : (modelTrace exCfg [sA, sB, sC] 2 [] exHist).all stepInScope = true := by decide
 /-- a renewal answered with a new SID and `Second-abc`: judged, accepted (old SID gone, new one routed) -/
